@@ -212,7 +212,10 @@ func (s *Sys) genHostileGRPC(t *Tape, dom Domain, existing []Tuple) hostileReq {
 		h.grpc = func() error { _, err := s.Check.BatchCheck(ctx, req); return err }
 	case 4:
 		h.Desc = fmt.Sprintf("Expand{Subject:%v MaxDepth:%d}", pt.Subject, depth)
-		h.grpc = func() error { _, err := s.Expand.Expand(ctx, &rts.ExpandRequest{Subject: pt.Subject, MaxDepth: depth}); return err }
+		h.grpc = func() error {
+			_, err := s.Expand.Expand(ctx, &rts.ExpandRequest{Subject: pt.Subject, MaxDepth: depth})
+			return err
+		}
 	case 5:
 		h.Desc = "Expand{}"
 		h.grpc = func() error { _, err := s.Expand.Expand(ctx, &rts.ExpandRequest{}); return err }
@@ -254,7 +257,10 @@ func (s *Sys) genHostileGRPC(t *Tape, dom Domain, existing []Tuple) hostileReq {
 	case 10:
 		h.Write = true
 		h.Desc = "Delete{} (no query at all)"
-		h.grpc = func() error { _, err := s.WriteC.DeleteRelationTuples(ctx, &rts.DeleteRelationTuplesRequest{}); return err }
+		h.grpc = func() error {
+			_, err := s.WriteC.DeleteRelationTuples(ctx, &rts.DeleteRelationTuplesRequest{})
+			return err
+		}
 	case 11:
 		h.Write = true
 		q := &rts.RelationQuery{Namespace: &pt.Namespace, Object: &pt.Object, Relation: &pt.Relation, Subject: pt.Subject}
